@@ -148,7 +148,7 @@ def run(ck, ix, tier):
                              f"`{norm(c)}` stores a unit spelling without entering it into _units_casei: case-insensitive lookups miss it (and prefixes no longer apply to it)")
                 else:
                     ck.check(casei == "None", "G-MEMO-FILL", f"casei-index|non-unit-table|writer={f.qualname.split('::')[1]}", f.loc(c), "other tables have no case-insensitive index", f"`{norm(c)}` indexes a non-unit table in _units_casei")
-    ck.floor("G-MEMO-FILL", n, 5, "adder calls")
+    ck.floor("G-MEMO-FILL", n, 3, "adder calls")
     fi = ix.func(PR, "GenericPlainRegistry._helper_single_adder")
     ck.check("casei_target_dict[key.lower()].add(key)" in norm(fi.node), "G-MEMO-FILL", "casei-index|lowercased-key-maps-to-spelling", fi.loc(), "index maps lower-cased spelling to the spelling", "the case-insensitive index is no longer filled with key.lower() -> key")
     fi = ix.func(PR, "GenericPlainRegistry._helper_adder")
